@@ -131,7 +131,8 @@ def evaluate_case(v, case, impl_res, model_res, listed_quirks):
         v.violations.append(("crash", case, "the implementation crashed: " + impl.get("stderr", "")[-400:]))
         return
     if kind != "ok":
-        v.corr_broken.append((case, "impl answered %s %s, model answers normally" % (kind, str(impl)[:300])))
+        # the specification (like the model) answers this request normally: an error / invalid body is a wrong answer
+        v.violations.append(("property", case, "impl answered %s %s, model and specification answer normally" % (kind, str(impl)[:300])))
         return
 
     model_eq_spec = model_res.get("model_eq_spec", False)
